@@ -31,6 +31,12 @@ FromCurie(cls, s, sep, name, ctx) ==
 \* model_validate("prefix:identifier"): the string pre-validator splits at ":"
 ValidateStr(cls, s, ctx) == IF cls = "named" THEN Raise("valueerror") ELSE FromCurie(cls, s, Colon, <<>>, ctx)
 
+\* from_reference(reference, converter=...): re-validates prefix and identifier, carries the name over when both
+\* classes have one; NamedReference refuses a reference that cannot carry a name (TypeError)
+FromReference(cls, r, ctx) ==
+  IF cls = "named" /\ ~HasName(r.cls) THEN Raise("TypeError")
+  ELSE Build(cls, r.p, r.id, IF HasName(r.cls) THEN r.name ELSE <<>>, ctx)
+
 \* equality / hashing / ordering
 Eq(a, b) == IF a.cls = "tuple" \/ b.cls = "tuple" THEN a.cls = b.cls /\ a.p = b.p /\ a.id = b.id
             ELSE a.p = b.p /\ a.id = b.id
